@@ -929,6 +929,230 @@ mod threads {
         r.nontrivial(&("flood-none", cap));
     }
 
+    // ---- caller-supplied watchers that run inside the channel ----
+
+    /// Set when a watcher that calls back into the channel was seen to deadlock (or to make other
+    /// callers wait): the sections that rely on such watchers (`refill`, `late`) are then skipped
+    /// instead of hanging one after the other.
+    pub static WATCHERS_BROKEN: AtomicBool = AtomicBool::new(false);
+
+    #[derive(Clone, Copy, Debug, PartialEq, Eq, Hash)]
+    pub enum Reg {
+        WhenEmpty,
+        WhenFlushed,
+    }
+
+    impl Reg {
+        pub const ALL: [Reg; 2] = [Reg::WhenEmpty, Reg::WhenFlushed];
+
+        pub fn name(self) -> &'static str {
+            match self {
+                Reg::WhenEmpty => "when_empty",
+                Reg::WhenFlushed => "when_flushed",
+            }
+        }
+
+        fn register(self, sender: &Sender<Chan>, f: impl FnOnce() + Send + 'static) {
+            match self {
+                Reg::WhenEmpty => sender.when_empty(f),
+                Reg::WhenFlushed => sender.when_flushed(f),
+            }
+        }
+    }
+
+    #[derive(Clone, Copy, Debug, PartialEq, Eq, Hash)]
+    pub enum Reentry {
+        Send,
+        TrySend,
+        WhenEmpty,
+        WhenFlushed,
+        SampleMetrics,
+        Snapshot,
+    }
+
+    impl Reentry {
+        pub const ALL: [Reentry; 6] = [Reentry::Send, Reentry::TrySend, Reentry::WhenEmpty, Reentry::WhenFlushed, Reentry::SampleMetrics, Reentry::Snapshot];
+
+        pub fn name(self) -> &'static str {
+            match self {
+                Reentry::Send => "send",
+                Reentry::TrySend => "try_send",
+                Reentry::WhenEmpty => "when_empty",
+                Reentry::WhenFlushed => "when_flushed",
+                Reentry::SampleMetrics => "sample_metrics",
+                Reentry::Snapshot => "verif_snapshot",
+            }
+        }
+
+        fn run(self, sender: &Sender<Chan>) {
+            match self {
+                Reentry::Send => sender.send(7001),
+                Reentry::TrySend => {
+                    let _ = sender.try_send(7002);
+                }
+                Reentry::WhenEmpty => sender.when_empty(|| {}),
+                Reentry::WhenFlushed => sender.when_flushed(|| {}),
+                Reentry::SampleMetrics => {
+                    let _ = metrics(&sender.metric_source());
+                }
+                Reentry::Snapshot => {
+                    let _ = sender.verif_snapshot();
+                }
+            }
+        }
+    }
+
+    const GENEROUS: Duration = Duration::from_secs(10);
+
+    /// Can another thread get at the channel's state within `limit`? (`verif_snapshot` takes the
+    /// channel's own lock: no answer = somebody holds it.)
+    fn state_lock_reachable(sender: &Arc<Sender<Chan>>, limit: Duration) -> bool {
+        let s = sender.clone();
+        run_bounded("c09_probe", limit, move || {
+            let _ = s.verif_snapshot();
+        })
+        .is_some()
+    }
+
+    /// (i) A watcher registered while the queue is non-empty blocks on a gate when the receiver
+    /// runs it: plain sends from other threads must return while the gate is still closed.
+    pub fn blocking_watcher_case(r: &mut Report, reg: Reg, rk: RecvKind, cap: usize) {
+        r.eval();
+        let case = json!({"section": "watchers", "variant": "watcher-parked-on-a-gate", "registered_with": reg.name(), "receiver": rk.name(), "capacity": cap});
+        let (sender, receiver) = bounded::<Chan>(cap);
+        let sender = Arc::new(sender);
+        let delivered: Delivered = Arc::new(Mutex::new(Vec::new()));
+        sender.send(1);
+        let gate = Gate::new(false);
+        let entered: Done<()> = Done::new();
+        {
+            let (gate, entered) = (gate.clone(), entered.clone());
+            reg.register(&sender, move || {
+                entered.set(());
+                gate.pass();
+            });
+        }
+        let handle = start_receiver(rk, receiver, delivered.clone(), Gate::new(true));
+        if entered.wait(GENEROUS).is_none() {
+            gate.open();
+            r.inconclusive(format!("watchers: the receiver never ran the {} watcher", reg.name()));
+            std::mem::forget(sender);
+            return;
+        }
+        // the receiver thread is inside the watcher now; other callers must not notice
+        let ops: [(&'static str, fn(&Sender<Chan>, u64)); 2] = [("send", |s, id| s.send(id)), ("try_send", |s, id| {
+            let _ = s.try_send(id);
+        })];
+        let dones: Vec<Done<()>> = ops.iter().map(|_| Done::new()).collect();
+        for (k, (_, op)) in ops.iter().enumerate() {
+            let (s, d, op) = (sender.clone(), dones[k].clone(), *op);
+            let _ = thread::Builder::new().name("c09_other_sender".into()).spawn(move || {
+                for j in 0..3u64 {
+                    op(&s, 100 + 10 * k as u64 + j);
+                }
+                d.set(());
+            });
+        }
+        let begin = Instant::now();
+        let mut returned_while_closed = Vec::new();
+        for d in &dones {
+            let left = GENEROUS.checked_sub(begin.elapsed()).unwrap_or(Duration::from_millis(1));
+            returned_while_closed.push(d.wait(left).is_some());
+        }
+        gate.open();
+        let mut broken = false;
+        for (k, (name, _)) in ops.iter().enumerate() {
+            if returned_while_closed[k] {
+                r.observe(&format!("watchers:{}-returned-while-a-watcher-was-parked", name), 1);
+                continue;
+            }
+            broken = true;
+            if dones[k].wait(GENEROUS).is_some() {
+                r.violation(
+                    &format!("C09:send-waited-for-a-watcher-callback:{}", name),
+                    &format!(
+                        "{} from another thread did not return for {:?} while a {} watcher was parked inside the receiver, and returned right after the watcher was released",
+                        name, GENEROUS, reg.name()
+                    ),
+                    case.clone(),
+                );
+            } else {
+                r.inconclusive(format!("watchers: {} did not return even after the {} watcher was released", name, reg.name()));
+            }
+        }
+        r.nontrivial(&("watchers-parked", reg, rk, cap));
+        if broken {
+            WATCHERS_BROKEN.store(true, Ordering::SeqCst);
+            std::mem::forget(sender);
+            return;
+        }
+        // clean shutdown, bounded
+        let joined = run_bounded("c09_cleanup", GENEROUS + GENEROUS, move || {
+            drop(sender);
+            join_bounded(handle, GENEROUS)
+        });
+        if joined != Some(true) {
+            r.inconclusive("watchers: the receiver did not terminate within the watchdog after the scenario");
+        }
+    }
+
+    /// (ii) A watcher registered while the queue is non-empty calls back into the sender when the
+    /// receiver runs it: it must return.
+    pub fn reentrant_watcher_case(r: &mut Report, reg: Reg, op: Reentry, rk: RecvKind, cap: usize) {
+        r.eval();
+        let case = json!({"section": "watchers", "variant": "watcher-calls-back-into-the-sender", "registered_with": reg.name(), "reentry": op.name(), "receiver": rk.name(), "capacity": cap});
+        let (sender, receiver) = bounded::<Chan>(cap);
+        let sender = Arc::new(sender);
+        let delivered: Delivered = Arc::new(Mutex::new(Vec::new()));
+        sender.send(1);
+        let entered: Done<()> = Done::new();
+        let returned: Done<()> = Done::new();
+        {
+            let (s, entered, returned) = (sender.clone(), entered.clone(), returned.clone());
+            reg.register(&sender, move || {
+                entered.set(());
+                op.run(&s);
+                drop(s);
+                returned.set(());
+            });
+        }
+        let handle = start_receiver(rk, receiver, delivered.clone(), Gate::new(true));
+        if entered.wait(GENEROUS).is_none() {
+            r.inconclusive(format!("watchers: the receiver never ran the {} watcher", reg.name()));
+            std::mem::forget(sender);
+            return;
+        }
+        r.nontrivial(&("watchers-reentrant", reg, op, rk, cap));
+        if returned.wait(GENEROUS).is_some() {
+            r.observe(&format!("watchers:reentrant-{}-returned", op.name()), 1);
+            let joined = run_bounded("c09_cleanup", GENEROUS + GENEROUS, move || {
+                drop(sender);
+                join_bounded(handle, GENEROUS)
+            });
+            if joined != Some(true) {
+                r.inconclusive("watchers: the receiver did not terminate within the watchdog after the scenario");
+            }
+            return;
+        }
+        // the watcher is still inside its call back into the sender: slow machine, or is the
+        // receiver thread parked in a lock acquisition while it holds the channel's state lock?
+        WATCHERS_BROKEN.store(true, Ordering::SeqCst);
+        if !state_lock_reachable(&sender, Duration::from_secs(5)) {
+            r.violation(
+                &format!("C09:watcher-reentry-deadlocks:{}", op.name()),
+                &format!(
+                    "a {} watcher that calls {} on the same channel never returned, and the channel's state lock cannot be taken from another thread either: the receiver runs the watcher while holding it",
+                    reg.name(),
+                    op.name()
+                ),
+                case,
+            );
+        } else if returned.wait(GENEROUS).is_none() {
+            r.inconclusive(format!("watchers: a {} watcher calling {} had not returned after {:?} although the channel's lock is free", reg.name(), op.name(), GENEROUS + GENEROUS));
+        }
+        std::mem::forget(sender);
+    }
+
     // ---- metrics sampled concurrently with sends ----
 
     #[derive(Clone, Copy, Debug, PartialEq, Eq, Hash)]
